@@ -3,7 +3,7 @@
 
 use crate::gast::*;
 
-pub const KINDS: usize = 15;
+pub const KINDS: usize = 16;
 
 pub const KIND_NAMES: [&str; KINDS] = [
     "IF",
@@ -21,6 +21,7 @@ pub const KIND_NAMES: [&str; KINDS] = [
     "DO UNTIL..LOOP",
     "DO..LOOP WHILE",
     "DO..LOOP UNTIL",
+    "FOR STEP alternating",
 ];
 
 /// An ordered tree of construct kinds.
@@ -173,6 +174,24 @@ impl G {
                     els: Some(e),
                 })]
             }
+            15 => {
+                // the sign of the step changes from one execution of this FOR statement to the next:
+                // downwards (4 TO 1 STEP -2) the first, third ... time, upwards (1 TO 4 STEP 2) the others
+                let body = self.body(&tag("f"), &n.kids);
+                let nv = format!("N{}%", id);
+                let sv = format!("S{}%", id);
+                let odd = || bin(BinOp::Mod, var(&nv), num(2));
+                let mut pre = vec![
+                    self.b.assign(var(&nv), bin(BinOp::Add, var(&nv), num(1))),
+                    self.b.assign(var(&sv), bin(BinOp::Sub, num(2), bin(BinOp::Mul, num(4), Expr::Paren(Box::new(odd()))))),
+                ];
+                let from = bin(BinOp::Add, num(1), bin(BinOp::Mul, num(3), Expr::Paren(Box::new(odd()))));
+                let to = bin(BinOp::Sub, num(4), bin(BinOp::Mul, num(3), Expr::Paren(Box::new(odd()))));
+                let f = self.b.s(K::For { var: var(&c), from, to, step: Some(var(&sv)), body, next_var: id % 2 == 0 });
+                pre.push(f);
+                pre.push(self.b.print(vec![st(&tag("x")), var(&c), var(&sv)]));
+                pre
+            }
             6..=9 => {
                 let mut body = self.body(&tag("f"), &n.kids);
                 let mut pre = vec![];
@@ -249,6 +268,103 @@ pub fn control_program_in_sub(f: &[Node], last_body: bool) -> Prog {
     Prog {
         main: vec![call, fin],
         subs: vec![SubDef { id, name: "Work".into(), is_function: false, params: vec![], body, is_static: false }],
+        declare: true,
+        ..Default::default()
+    }
+}
+
+/// The forest inside a SUB whose loop counters, step and limit variables and the tick are DIM SHARED
+/// module-level variables: a FUNCTION called from every trace reads them as the module sees them, and
+/// the module prints them after the SUB returned.
+pub fn control_program_shared(f: &[Node], last_body: bool) -> Prog {
+    let mut g = G { b: B::new(), counter: 0, last_body };
+    let mut body = vec![];
+    for n in f {
+        body.extend(g.node(n));
+    }
+    body.push(g.b.print(vec![st("end"), tick()]));
+    // every INTEGER variable the body mentions
+    let mut names: Vec<String> = vec![];
+    fn collect(e: &Expr, names: &mut Vec<String>) {
+        match e {
+            Expr::Var(n) => {
+                if !names.contains(n) {
+                    names.push(n.clone());
+                }
+            }
+            Expr::Bin(_, a, b) => {
+                collect(a, names);
+                collect(b, names);
+            }
+            Expr::Neg(a) | Expr::Not(a) | Expr::Paren(a) => collect(a, names),
+            Expr::Index(_, v) | Expr::Call(_, v) | Expr::Builtin(_, v) => v.iter().for_each(|x| collect(x, names)),
+            Expr::Field(a, _) => collect(a, names),
+            _ => {}
+        }
+    }
+    walk_stmts(&body, &mut |s| match &s.k {
+        K::Assign(l, r) => {
+            collect(l, &mut names);
+            collect(r, &mut names);
+        }
+        K::For { var, from, to, step, .. } => {
+            collect(var, &mut names);
+            collect(from, &mut names);
+            collect(to, &mut names);
+            if let Some(x) = step {
+                collect(x, &mut names);
+            }
+        }
+        K::While(c, _) | K::Do(_, c, _) => collect(c, &mut names),
+        _ => {}
+    });
+    names.sort();
+    // the loop counters are read through a FUNCTION at the end of every loop body
+    let counters: Vec<String> = names.iter().filter(|n| n.starts_with('C')).cloned().collect();
+    fn add_probe(stmts: &mut Vec<Stmt>, b: &mut B) {
+        for s in stmts.iter_mut() {
+            match &mut s.k {
+                K::If { arms, els, .. } => {
+                    for (_, body) in arms.iter_mut() {
+                        add_probe(body, b);
+                    }
+                    if let Some(e) = els {
+                        add_probe(e, b);
+                    }
+                }
+                K::Select { cases, els, .. } => {
+                    for (_, body) in cases.iter_mut() {
+                        add_probe(body, b);
+                    }
+                    if let Some(e) = els {
+                        add_probe(e, b);
+                    }
+                }
+                K::For { body, .. } | K::While(_, body) | K::Do(_, _, body) => {
+                    add_probe(body, b);
+                    body.push(b.print(vec![st("seen"), call("Seen%", vec![])]));
+                }
+                _ => {}
+            }
+        }
+    }
+    add_probe(&mut body, &mut g.b);
+    let mut sum: Expr = num(0);
+    for (i, c) in counters.iter().enumerate() {
+        sum = bin(BinOp::Add, sum, bin(BinOp::Mul, var(c), num(1 + 10 * i as i64)));
+    }
+    let fbody = vec![g.b.assign(var("Seen%"), sum)];
+    let dim = g.b.s(K::Dim { shared: true, redim: false, vars: names.iter().map(|n| DimVar { name: n.clone(), ty: None, dims: vec![] }).collect() });
+    let call_stmt = g.b.s(K::Call("Work".into(), vec![]));
+    let fin = g.b.print(std::iter::once(st("back")).chain(names.iter().map(|n| var(n))).collect());
+    let id = g.b.id();
+    let id2 = g.b.id();
+    Prog {
+        main: vec![dim, call_stmt, fin],
+        subs: vec![
+            SubDef { id, name: "Work".into(), is_function: false, params: vec![], body, is_static: false },
+            SubDef { id: id2, name: "Seen%".into(), is_function: true, params: vec![], body: fbody, is_static: false },
+        ],
         declare: true,
         ..Default::default()
     }
